@@ -26,9 +26,10 @@ from ..ref import stats as ref
 PROPERTY = 'C19'
 LEVEL = 'exploration'
 RULE = (
-    'Models: pheno (load_example_model) changed by <=3 of 19 parameter-count / classification changing operations '
+    'Models: pheno (load_example_model) changed by <=3 of 23 parameter-count / classification changing operations '
     '(peripheral compartment, remove/add IIV, fix/unfix, zero-fix omega, joint distribution, covariate effect, IOV, '
-    'absorption, lag time, combined error, upper bound, dataset subsets). criteria: -2LL on a 0.25 grid, all BIC types, '
+    'absorption, lag time, combined error, upper bound, dataset subsets, a theta shared by an eta-carrying and a non-eta '
+    'individual parameter). criteria: -2LL on a 0.25 grid, all BIC types, '
     'LRT functions on a (parent, child) pair and a candidate list; non-trivial = the model differs from pheno in '
     'estimated/fixed/random counts or the pair has df != 0. strictness: expression ASTs (depth<=3) over all 17 documented '
     'criteria rendered fully parenthesised, results with grid valued sigdigs/RSE/gradients(0,NaN)/estimates near bounds/'
@@ -93,6 +94,27 @@ def _ops():
             need(not (m.parameters[p].fix and m.parameters[p].init == 0))
         return pm.create_joint_distribution(m)
 
+    def share(m, target, theta, drop_eta=None):
+        """multiply the (first) definition of `target` by the population parameter `theta`
+        (statement edit through Model.replace); optionally the parameter first loses its eta"""
+        from pharmpy.basic import Expr
+
+        need(theta in m.parameters.names)
+        if drop_eta is not None and has_eta(m, drop_eta):
+            m = pm.remove_iiv(m, drop_eta)
+        sset = m.statements
+        idx = next((i for i, st_ in enumerate(sset) if hasattr(st_, 'symbol') and str(st_.symbol) == target), None)
+        need(idx is not None)
+        need(theta not in {str(x) for x in sset[idx].expression.free_symbols})
+        new = sset[idx].replace(expression=sset[idx].expression * Expr.symbol(theta))
+        return m.replace(statements=sset[:idx] + new + sset[idx + 1:])
+
+    def shared_qp1(m):
+        if 'POP_QP1' not in m.parameters.names:
+            m = pm.add_peripheral_compartment(m)
+        need('POP_QP1' in m.parameters.names and not has_eta(m, 'ETA_QP1'))
+        return share(m, 'QP1', 'POP_CL')
+
     def fix(names):
         def f(m):
             need(all(n in m.parameters.names for n in names))
@@ -120,10 +142,18 @@ def _ops():
         ('lagtime', lambda m: (need('POP_MDT' not in m.parameters.names), pm.add_lag_time(m))[1]),
         ('combined', lambda m: (need('SIGMA' in m.parameters.names), pm.set_combined_error_model(m))[1]),
         ('ub_popvc', lambda m: (need('POP_VC' in m.parameters.names), pm.set_upper_bounds(m, {'POP_VC': 5.0}))[1]),
+        # one population parameter shared by two individual parameters, one with and one without eta
+        ('shared_cl_v', lambda m: share(m, 'TVV', 'POP_CL', drop_eta='ETA_VC')),
+        ('shared_vc_cl', lambda m: (need('POP_CLAPGR' not in m.parameters.names), share(m, 'TVCL', 'POP_VC', drop_eta='ETA_CL'))[1]),
+        ('shared_cl_qp1', shared_qp1),
+        # three peripheral compartments: pharmpy switches to rate constants K12 = Q/V ..., so the class of
+        # the Q thetas depends on the reading (exercises the admissible-set oracle for the mixed BIC)
+        ('periph3', lambda m: (need('POP_QP1' not in m.parameters.names),
+                               pm.add_peripheral_compartment(pm.add_peripheral_compartment(pm.add_peripheral_compartment(m))))[1]),
     ]
 
 
-N_OPS = 19
+N_OPS = 23
 _OPS = None
 _MODELS = {}  # tuple of op names -> ModelInfo
 
@@ -199,10 +229,12 @@ def model_facts(model):
     direct_thetas = set()
     direct_syms = set()
     live = set()
+    deps_at_ode = {}
     before = True
     for s in model.statements:
         if not isinstance(s, Assignment):
             before = False  # individual parameters are defined before the ODE system
+            deps_at_ode = dict(deps)
             for x in s.free_symbols:
                 live |= deps.get(str(x), {str(x)})
             continue
@@ -229,6 +261,21 @@ def model_facts(model):
                 direct_syms.add(str(s.symbol))
             else:
                 direct_syms.discard(str(s.symbol))
+    # individual parameters = assigned symbols the ODE system / the statements after it read
+    roots = set()
+    seen_ode = False
+    for s in model.statements:
+        fs = s.free_symbols if not isinstance(s, Assignment) else (s.expression.free_symbols if seen_ode else ())
+        if not isinstance(s, Assignment):
+            seen_ode = True
+        for x in fs:
+            if str(x) in deps_at_ode:
+                roots.add(str(x))
+    with_eta_roots, no_eta_roots = set(), set()
+    for r_ in roots:
+        d = deps_at_ode[r_]
+        (with_eta_roots if d & random_etas else no_eta_roots).update(d & theta)
+    shared = sorted(n for n in with_eta_roots & no_eta_roots if not pars[n].fix)
     for y in model.dependent_variables.keys():
         live |= deps.get(str(y), {str(y)})
     dead = sorted(n for n in theta if not pars[n].fix and n not in live)
@@ -238,7 +285,8 @@ def model_facts(model):
         kind = 'omega' if p.name in omega else ('sigma' if p.name in sigma else 'theta')
         params.append(
             dict(name=p.name, fix=bool(p.fix), init=float(p.init), lower=float(p.lower), upper=float(p.upper), kind=kind,
-                 iiv=p.name in iiv_omega, with_eta=p.name in random_thetas)
+                 iiv=p.name in iiv_omega, with_eta=p.name in random_thetas, with_eta_direct=p.name in direct_thetas,
+                 dead=p.name in dead)
         )
     return dict(
         params=params,
@@ -249,7 +297,9 @@ def model_facts(model):
         n_all=len(params),
         n_fixed_flag=sum(1 for p in params if p['fix']),
         dead=dead,
-        # 'mixed' BIC asserted only when both readings of "theta of a parameter with a random effect" agree
+        shared=shared,
+        # both readings of "theta of a parameter with a random effect" agree and no dead parameter:
+        # the mixed BIC is a single value; otherwise it must be one of the admissible partitions
         mixed_ambiguous=bool(dead) or {n for n in random_thetas if not pars[n].fix} != {n for n in direct_thetas if not pars[n].fix},
     )
 
@@ -403,8 +453,19 @@ def run_criteria(spec):
         raise Violation('aic:value', observed=got, expected=exp, detail=f'{desc} -2LL={ll} n_estimated={ref.n_estimated(facts)}')
     for t in BIC_TYPES:
         if t == 'mixed' and facts['mixed_ambiguous']:
-            classes0.append('mixed-bic-not-asserted')
-            continue  # dead parameter / derived rate constants: classification not defined
+            # dead parameter / derived rate constants: the classification of some thetas is open, but
+            # every estimated parameter is counted exactly once (a dead one at most once)
+            got = _num(guard(calculate_bic, info.model, ll, type=t, allowed=(), clause='bic[mixed]'), 'bic[mixed]')
+            adm = ref.bic_mixed_admissible(ll, facts)
+            evals += 1
+            classes0.append('mixed-bic-admissible-set')
+            if not any(close(got, v) for v in adm):
+                raise Violation(
+                    'bic[mixed]:not-an-admissible-partition', observed=got, expected=sorted(adm),
+                    detail=f'{desc} -2LL={ll} n_est={ref.n_estimated(facts)} ambiguous={ref.ambiguous_thetas(facts)} dead={facts["dead"]} '
+                    f'n_ind={facts["n_ind"]} n_obs={facts["n_obs"]}',
+                )
+            continue
         got = _num(guard(calculate_bic, info.model, ll, type=t, allowed=(), clause=f'bic[{t}]'), f'bic[{t}]')
         exp = ref.bic(ll, facts, t)
         evals += 1
@@ -513,6 +574,8 @@ def run_criteria(spec):
         classes.append('iov-omega')
     if facts['n_ind'] != 59:
         classes.append('subset-dataset')
+    if facts['shared']:
+        classes.append('shared-theta(eta and non-eta individual parameter)')
     return CaseInfo(nontrivial=nt, classes=tuple(classes), render=dict(model=desc, ll=ll, lrt=ldesc), evals=evals)
 
 
@@ -974,6 +1037,8 @@ def run_ranking(spec):
     if fin and any(not it['strict'] and it['value'] <= min(x['value'] for x in fin) for it in fin):
         classes.append('failing-candidate-has-best-value')
         nt = True
+    if rank_type == 'bic' and S['bic_type'] == 'mixed' and any(it['info'].facts['shared'] for it in items):
+        classes.append('bic-mixed:shared-theta')
     if not base['strict']:
         classes.append('base-fails-strictness')
     if S['use_pen']:
@@ -1609,8 +1674,8 @@ def selfcheck():
 
 
 SUBCHECKS = [
-    SubCheck('criteria', lambda: CRIT, run_criteria, quick=600, thorough=12000),
-    SubCheck('strictness', lambda: STRICT, _dev('strictness', run_strictness), quick=5000, thorough=100000),
-    SubCheck('ranking', lambda: RANK, _dev('ranking', run_ranking), quick=2400, thorough=40000),
-    SubCheck('statistics', lambda: STATS, run_statistics, quick=1600, thorough=25000),
+    SubCheck('criteria', lambda: CRIT, run_criteria, quick=500, thorough=12000),
+    SubCheck('strictness', lambda: STRICT, _dev('strictness', run_strictness), quick=4000, thorough=100000),
+    SubCheck('ranking', lambda: RANK, _dev('ranking', run_ranking), quick=1800, thorough=40000),
+    SubCheck('statistics', lambda: STATS, run_statistics, quick=1200, thorough=25000),
 ]
